@@ -76,8 +76,13 @@ def single_origin_attempt_rule(run, fr):
                   '%s is set when the lookup starts but not cleared on every path of on_domain_lookup: after a failed lookup no later request ever connects' % fld, 'cleared on every path of the lookup completion')
 
 
-def _is_aborted_atom(fn, atom):
+def _is_aborted_atom(fn, atom, depth=0):
     """truth value of a guard atom in the state "this completion was delivered operation_aborted" (None: not decided)"""
+    a_ = q.strip_casts(atom)
+    if is_node(a_) and a_['k'] == 'ref' and a_.get('dk') == 'local' and depth < 3:
+        ds = q.local_defs(fn, a_['did'])       # `bool const aborted = (ec == operation_aborted); if (aborted) return;`
+        if len(ds) == 1:
+            return _is_aborted_atom(fn, ds[0][1], depth + 1)
     t = q.render(fn, q.strip_casts(atom)).replace('this->', '')
     c = q.cmp_atom(atom)
     if c and c[0] in ('==', '!=') and any('operation_aborted' in q.render(fn, x) for x in c[1:]):
